@@ -151,20 +151,28 @@ pub struct Families {
     pub fence: Vec<(String, AProg)>,
     pub lab: Vec<(String, AProg)>,
     pub f1: Vec<(String, AProg)>,
+    /// programs whose labels contain non-ASCII letters (spelled identically everywhere) and their single faults
+    pub uni: Vec<(String, AProg)>,
 }
 impl Families {
     pub fn new() -> Self {
         let base = base_programs();
         let mut f1 = vec![];
         for (bn, b) in &base { for (d, p) in faults(b) { f1.push((format!("{bn}: {d}"), p)); } }
-        Families { l1: single_statements(), lim: offset_limit_programs(), blk: block_layouts(), base, fence: fence_programs(), lab: label_programs(), f1 }
+        let uni_base: Vec<AProg> = vec![
+            block(0x3000, vec![lst("DONNÉES", Nuc::Ld(0, lab("café"))), st(Nuc::Br(7, lab("DONNÉES"))), lst("café", Nuc::Fill(FillOp::Lab("DONNÉES".into()))), lst("n_ñ1", Nuc::Halt)]),
+            { let mut p = vec![st(Nuc::External("Unï".into()))]; p.extend(block(0x4000, vec![lst("Omegaω", Nuc::Fill(FillOp::Lab("Unï".into()))), st(Nuc::Jsr(lab("Omegaω")))])); p },
+        ];
+        let mut uni = vec![];
+        for (k, b) in uni_base.iter().enumerate() { uni.push((format!("unicode {k}"), b.clone())); for (d, p) in faults(b) { uni.push((format!("unicode {k}: {d}"), p)); } }
+        Families { uni, l1: single_statements(), lim: offset_limit_programs(), blk: block_layouts(), base, fence: fence_programs(), lab: label_programs(), f1 }
     }
     pub fn len(&self, fam: &str) -> u64 {
         match fam {
             "L1" => (self.l1.len() * ORIGINS.len()) as u64,
             "S1" => SeqSpace::new(1).count() * 3, "S2" => SeqSpace::new(2).count() * 3, "S3" => SeqSpace::new(3).count() * 3,
             "LIM" => self.lim.len() as u64, "BLK" => self.blk.len() as u64, "BASE" => self.base.len() as u64,
-            "FENCE" => self.fence.len() as u64, "LAB" => self.lab.len() as u64, "F1" => self.f1.len() as u64,
+            "FENCE" => self.fence.len() as u64, "LAB" => self.lab.len() as u64, "F1" => self.f1.len() as u64, "UNI" => self.uni.len() as u64,
             "F2" => (self.f1.len() as u64) * 400,
             "STR" => 1 + 10 + 100 + 1000 + 10000,
             _ => 0,
@@ -180,6 +188,7 @@ impl Families {
             "FENCE" => self.fence.get(i as usize).map(|x| x.1.clone()),
             "LAB" => self.lab.get(i as usize).map(|x| x.1.clone()),
             "F1" => self.f1.get(i as usize).map(|x| x.1.clone()),
+            "UNI" => self.uni.get(i as usize).map(|x| x.1.clone()),
             "STR" => {
                 const A: [char; 10] = ['a', ' ', '\t', '\n', '\r', '\0', '"', '\\', ';', '~'];
                 let (len, mut k) = if i < 1 { (0, 0) } else if i < 11 { (1, i - 1) } else if i < 111 { (2, i - 11) } else if i < 1111 { (3, i - 111) } else { (4, i - 1111) };
